@@ -94,9 +94,10 @@ theorem lexS_consumed (o : VOpts) (st : TState) (u : Bytes) (pos : Nat) (es : Li
       | exact atPos_consumed _ _ _ _ _ _ hn'
       | (simp_all [Fill.evs, Fill.isFault, SRes.evs, SRes.isFault]; done)
 
-theorem scanToken_consumed (o : VOpts) (st : TState) (u : Bytes) (es : List Event) :
-    Consumed es (scanToken o st u es).evs (scanToken o st u es).isFault := by
-  unfold scanToken
+theorem scanWith_consumed (st : TState) (lex : Bytes → Nat → List Event → Bool → SRes)
+    (hlex : ∀ u pos es f, Consumed es (lex u pos es f).evs (lex u pos es f).isFault) (u : Bytes) (es : List Event) :
+    Consumed es (scanWith st lex u es).evs (scanWith st lex u es).isFault := by
+  unfold scanWith
   have C1 : Consumed es (sWhitespace u 0 es).evs (sWhitespace u 0 es).isFault := refill_consumed _ _ es _ _
   cases hs : sWhitespace u 0 es with
   | fault u1 es1 => rw [hs] at C1; exact C1
@@ -130,10 +131,14 @@ theorem scanToken_consumed (o : VOpts) (st : TState) (u : Bytes) (es : List Even
             repeat' split
             all_goals first
               | exact C12
-              | exact C12.trans (lexS_consumed _ _ _ _ _ _)
+              | exact C12.trans (hlex _ _ _ _)
         · split
           · exact C1'
-          · exact C1'.trans (lexS_consumed _ _ _ _ _ _)
+          · exact C1'.trans (hlex _ _ _ _)
+
+theorem scanToken_consumed (o : VOpts) (st : TState) (u : Bytes) (es : List Event) :
+    Consumed es (scanToken o st u es).evs (scanToken o st u es).isFault :=
+  scanWith_consumed st (lexS o st) (lexS_consumed o st) u es
 
 /-- a reader that never faults -/
 def NoFault (es : List Event) : Prop := Event.fault ∉ es
